@@ -544,6 +544,7 @@ func (r *hRun) doWrite(what string, o hOp, del bool) {
 	_, err := r.cc.Exec(func(_ sqlx.Conn) (sql.Result, error) {
 		if o.During {
 			r.classes["read-during-exec"] = true
+			r.absorb(false, false) // keep the model in step with whatever Exec did before calling back
 			r.doRead(what+" (read inside the exec callback, before the change)", o.ID)
 			if existed {
 				// the read above may have re-cached the old row
@@ -929,6 +930,14 @@ func c06HistInterp(t *testing.T, c hCase) (v kit.Verdict) {
 		for idx := 0; idx < c06NIdx && r.fail == ""; idx++ {
 			r.doReadIndex(fmt.Sprintf("epilogue readidx %d", idx), idx)
 		}
+		// "and not again afterwards": one whole delay table later no further DEL was sent
+		if len(r.tasksF) > 0 && r.fail == "" {
+			quiet := 0
+			for _, d := range cache.C06Delays {
+				quiet += d
+			}
+			r.doAdv("epilogue (quiet period after the last successful retry)", quiet+2)
+		}
 	})
 	v.NonTrivial = r.nontrivial
 	for k := range r.classes {
@@ -980,17 +989,41 @@ func c06HistGen(rt *rapid.T) hCase {
 		return f
 	}
 	kinds := []string{"read", "read", "read", "read", "readidx", "readidx", "readidx", "write", "write", "write", "write",
-		"delrow", "delcache", "setcache", "adv", "adv", "adv", "conc", "fault", "fault"}
+		"delrow", "delcache", "setcache", "adv", "adv", "adv", "conc", "fault", "fault", "idxstale"}
 	nops := rapid.IntRange(5, 40).Draw(rt, "nops")
 	faulty := false
+	existing := func() []int {
+		var ids []int
+		for id := range rows {
+			ids = append(ids, id)
+		}
+		sort.Ints(ids)
+		return ids
+	}
+	// mostly rows that exist
+	pickID := func() int {
+		if ids := existing(); len(ids) > 0 && rapid.IntRange(0, 3).Draw(rt, "existing") != 0 {
+			return rapid.SampledFrom(ids).Draw(rt, "id")
+		}
+		return rapid.IntRange(0, c06NIDs-1).Draw(rt, "id")
+	}
+	pickIdx := func() int {
+		if ids := existing(); len(ids) > 0 && rapid.IntRange(0, 3).Draw(rt, "existing") != 0 {
+			return rows[rapid.SampledFrom(ids).Draw(rt, "id")]
+		}
+		return rapid.IntRange(0, c06NIdx-1).Draw(rt, "idx")
+	}
 	for i := 0; i < nops; i++ {
 		k := rapid.SampledFrom(kinds).Draw(rt, "kind")
+		if i < 2 && rapid.Bool().Draw(rt, "populate") {
+			k = "write"
+		}
 		o := hOp{K: k}
 		switch k {
 		case "read":
-			o.ID = rapid.IntRange(0, c06NIDs-1).Draw(rt, "id")
+			o.ID = pickID()
 		case "readidx":
-			o.Idx = rapid.IntRange(0, c06NIdx-1).Draw(rt, "idx")
+			o.Idx = pickIdx()
 		case "write":
 			o.ID = rapid.IntRange(0, c06NIDs-1).Draw(rt, "id")
 			cur, existed := rows[o.ID]
@@ -1006,15 +1039,25 @@ func c06HistGen(rt *rapid.T) hCase {
 			}
 			o.During = rapid.IntRange(0, 3).Draw(rt, "during") == 0
 			rows[o.ID] = o.Idx
-		case "delrow":
-			if len(rows) == 0 {
+		case "idxstale":
+			// index entry cached, row rewritten without naming the (unchanged) index key, index read
+			ids := existing()
+			if len(ids) == 0 {
 				continue
 			}
-			var ids []int
-			for id := range rows {
-				ids = append(ids, id)
+			id := rapid.SampledFrom(ids).Draw(rt, "id")
+			c.Ops = append(c.Ops, hOp{K: "readidx", Idx: rows[id]})
+			if rapid.Bool().Draw(rt, "viawrite") {
+				c.Ops = append(c.Ops, hOp{K: "write", ID: id, Idx: rows[id], NoIdx: true})
+			} else {
+				c.Ops = append(c.Ops, hOp{K: "delcache", Keys: []string{fmt.Sprintf("p%d", id)}})
 			}
-			sort.Ints(ids)
+			o = hOp{K: "readidx", Idx: rows[id]}
+		case "delrow":
+			ids := existing()
+			if len(ids) == 0 {
+				continue
+			}
 			o.ID = rapid.SampledFrom(ids).Draw(rt, "id")
 			o.During = rapid.IntRange(0, 3).Draw(rt, "during") == 0
 			delete(rows, o.ID)
@@ -1022,9 +1065,9 @@ func c06HistGen(rt *rapid.T) hCase {
 			nk := rapid.IntRange(1, 3).Draw(rt, "nkeys")
 			for j := 0; j < nk; j++ {
 				if rapid.Bool().Draw(rt, "primary") {
-					o.Keys = append(o.Keys, fmt.Sprintf("p%d", rapid.IntRange(0, c06NIDs-1).Draw(rt, "id")))
+					o.Keys = append(o.Keys, fmt.Sprintf("p%d", pickID()))
 				} else {
-					o.Keys = append(o.Keys, fmt.Sprintf("i%d", rapid.IntRange(0, c06NIdx-1).Draw(rt, "idx")))
+					o.Keys = append(o.Keys, fmt.Sprintf("i%d", pickIdx()))
 				}
 			}
 		case "adv":
@@ -1033,8 +1076,8 @@ func c06HistGen(rt *rapid.T) hCase {
 				o.D = 1
 			}
 		case "conc":
-			o.ID = rapid.IntRange(0, c06NIDs-1).Draw(rt, "id")
-			o.Idx = rapid.IntRange(0, c06NIdx-1).Draw(rt, "idx")
+			o.ID = pickID()
+			o.Idx = pickIdx()
 			o.ViaIdx = rapid.IntRange(0, 2).Draw(rt, "viaidx") == 0
 			o.Lat = rapid.IntRange(1, 400).Draw(rt, "lat")
 			nr := rapid.IntRange(2, 6).Draw(rt, "readers")
@@ -1056,7 +1099,7 @@ func c06HistGen(rt *rapid.T) hCase {
 			if faulty && rapid.Bool().Draw(rt, "recover") {
 				o.Mode = ""
 			} else {
-				o.Mode = rapid.SampledFrom([]string{"down", "get", "set", "del", "del", "del"}).Draw(rt, "mode")
+				o.Mode = rapid.SampledFrom([]string{"down", "get", "set", "set", "del", "del", "del"}).Draw(rt, "mode")
 				o.Filt = rapid.SampledFrom([]string{"", "", "p", "i"}).Draw(rt, "filt")
 			}
 			faulty = o.Mode != ""
@@ -1067,6 +1110,6 @@ func c06HistGen(rt *rapid.T) hCase {
 }
 
 func TestVerif_C06_history(t *testing.T) {
-	kit.Run(t, "C06", "history", kit.Opts{Quick: 400, Thorough: 32000}, c06HistGen,
+	kit.Run(t, "C06", "history", kit.Opts{Quick: 3000, Thorough: 160000}, c06HistGen,
 		func(c hCase) kit.Verdict { return c06HistInterp(t, c) })
 }
